@@ -235,6 +235,25 @@ func leaks(text []byte, ms [][]byte) string {
 	return ""
 }
 
+// how often was `text` handed to the receiving user with the resend mark — once or several times over
+// ("[resent] [resent] x" is a second retransmission of x) — and how often with more than one mark
+func resentCopies(delivered map[string]int, text []byte) (marked, deep int) {
+	for k, n := range delivered {
+		depth := 0
+		for strings.HasPrefix(k, "[resent] ") && k != string(text) {
+			k = k[len("[resent] "):]
+			depth++
+		}
+		if depth > 0 && k == string(text) {
+			marked += n
+			if depth > 1 {
+				deep += n
+			}
+		}
+	}
+	return
+}
+
 func (g *gen) lifecycleScenario(w *world, steps int) {
 	w.parties = map[string]*party{}
 	w.dead = false
@@ -285,8 +304,10 @@ func (g *gen) lifecycleScenario(w *world, steps int) {
 			olog.ok("C18")
 			olog.ok("C03")
 			n := ll.delivered[string(sec.text)]
-			r := ll.delivered["[resent] "+string(sec.text)]
-			if n > 1 || r > 1 {
+			r, deep := resentCopies(ll.delivered, sec.text)
+			if deep > 0 {
+				olog.viol("C18", "text-resent-twice", fmt.Sprintf("text %q (sent while %s) was delivered %d times, %d times as resent, of which %d times with the resend mark more than once", sec.text, sec.why, n, r, deep))
+			} else if n > 1 || r > 1 {
 				olog.viol("C18", "text-transmitted-more-than-once", fmt.Sprintf("text %q (sent while %s) was delivered %d times and %d times as resent", sec.text, sec.why, n, r))
 			}
 			if where := leaks(sec.text, s.wire[sec.from:]); where != "" {
@@ -343,7 +364,7 @@ func (g *gen) queuedThenSend(w *world) {
 			olog.ok("C18")
 			olog.ok("C03")
 			n := ll.delivered[string(sec.text)]
-			r := ll.delivered["[resent] "+string(sec.text)]
+			r, _ := resentCopies(ll.delivered, sec.text)
 			if n > 1 || r > 1 {
 				olog.viol("C18", "text-transmitted-more-than-once", fmt.Sprintf("queued-then-send: text %q (sent while %s) was delivered %d times and %d times as resent", sec.text, sec.why, n, r))
 			}
@@ -416,8 +437,10 @@ func (g *gen) lifecycleMotifKey(w *world, seq []int, reqEnc bool, version int) s
 			olog.ok("C18")
 			olog.ok("C03")
 			n := ll.delivered[string(sec.text)]
-			r := ll.delivered["[resent] "+string(sec.text)]
-			if n > 1 || r > 1 || n+r > 1 && sec.why != "encrypted" {
+			r, deep := resentCopies(ll.delivered, sec.text)
+			if deep > 0 {
+				olog.viol("C18", "text-resent-twice", fmt.Sprintf("history %v (requireEncryption=%v): text %q (sent while %s) was delivered %d times, %d times as resent, of which %d times with the resend mark more than once", seq, reqEnc, sec.text, sec.why, n, r, deep))
+			} else if n > 1 || r > 1 || n+r > 1 && sec.why != "encrypted" {
 				olog.viol("C18", "text-transmitted-more-than-once", fmt.Sprintf("history %v (requireEncryption=%v): text %q (sent while %s) was delivered %d times and %d times as resent", seq, reqEnc, sec.text, sec.why, n, r))
 			}
 			if where := leaks(sec.text, s.wire[sec.from:]); where != "" {
@@ -528,6 +551,42 @@ func (g *gen) peerRestart(w *world) {
 	}
 	if marked != 1 || unmarked != 0 {
 		olog.viol("C18", "unreadable-message-not-resent-once", fmt.Sprintf("OTRv%d: the peer restarted, reported %q unreadable and a new key exchange completed; it was handed the marked text %d times and the unmarked text %d times", version, text, marked, unmarked))
+		return
+	}
+	// the retransmission consumed what was remembered: further error reports, each followed by a
+	// completed refresh of the keys, bring nothing of it to the peer again (a does not Send meanwhile)
+	cycles := 1 + g.r.Intn(2)
+	for cy := 1; cy <= cycles && !w.dead; cy++ {
+		// (a query right after a key exchange is ignored for a minute)
+		wait := []int{61, 75, 120, 3600}[g.r.Intn(4)]
+		w.tick(wait)
+		peerSpoke := g.r.Intn(3) == 0
+		if peerSpoke {
+			ts, _ := w.send(b2, g.cleanText())
+			l2.enqueue(b2, ts)
+			l2.settle(10)
+		}
+		before := len(b2.received)
+		ssidBefore := otr3.VerifSnapshot(a.c).SSID
+		report := []string{"?OTR Error: unreadable", "?OTR Error: You sent an encrypted message, but we are not in a private conversation"}[g.r.Intn(2)]
+		_, back, _, _ := w.recv(a, []byte(report))
+		l2.enqueue(a, back)
+		l2.settle(60)
+		if w.dead {
+			return
+		}
+		olog.ok("C18")
+		refreshed := a.c.IsEncrypted() && b2.c.IsEncrypted() && !bytes.Equal(otr3.VerifSnapshot(a.c).SSID, ssidBefore)
+		var again [][]byte
+		for _, p := range b2.received[before:] {
+			if bytes.HasSuffix(p, text) {
+				again = append(again, p)
+			}
+		}
+		if len(again) > 0 {
+			olog.viol("C18", "text-resent-twice", fmt.Sprintf("OTRv%d: Send(%q) once; the restarted peer reported it unreadable, the keys were refreshed and it received %q; %d s later (peer sent a text in between: %v, no Send by the local user) error report no. %d %q arrived (keys refreshed again: %v) and the peer was handed %q on top", version, text, want, wait, peerSpoke, cy+1, report, refreshed, again))
+			return
+		}
 	}
 }
 
